@@ -441,6 +441,10 @@ def check(prop, tier, seed):
                    "one guard of this property was applicable")
     if P.get("exhaustive"):
         cov["exhaustive"] = True
+    # a driver that aborted (its own panic, e.g. on a state the harness did not expect) leaves the rest of its scenarios
+    # unrecorded: violations found before the abort stand; without any, the run is a tool error, not a pass
+    if cov.get("spec_conformance", {}).get("M_driver_completed", [0, 0, 0])[2] and not violations:
+        raise ToolError("a driver aborted before finishing its scenarios (see the driver_abort event of its trace) and nothing was flagged before that")
     # vacuity: a property whose guards were never applicable was not exercised
     if P.get("families") and cov["evaluations"] == 0:
         raise ToolError(f"vacuous: no guard of {prop} was applicable on any recorded event")
